@@ -225,3 +225,43 @@ Proof.
   unfold encode_dict. unfold encode_msg in Hss. rewrite check_talker_channel_ok in * by assumption. cbn [bind] in *.
   rewrite Hty. cbn [bind]. unfold data_to_payload. rewrite Hcr. cbn [try_except bind]. exact Hss.
 Qed.
+
+(* ================================================================================================ *)
+(* Part C: the str -> bytes step                                                                     *)
+
+(* encode_dict / encode_msg return str objects and decode() starts with msg.encode('utf-8') for every str argument.
+   Every character the encoder model writes is ASCII (0..127), where UTF-8 encoding is the identity on codes: handing the
+   character lists to the decoder model as byte lists -- as every statement above does -- is that step. *)
+Definition e2e_ascii (s : list Z) : Prop := Forall (fun c => 0 <= c < 128) s.
+
+Lemma e2e_hexdigit_ascii : forall l, forallb is_hexdigit l = true -> e2e_ascii l.
+Proof.
+  intros l H. apply Forall_forall. intros c Hc. rewrite forallb_forall in H. specialize (H c Hc).
+  unfold is_hexdigit in H. cbv beta. lia.
+Qed.
+
+Lemma e2e_sentences_ascii : forall talker seq chan cnt fill cs k,
+  clean talker -> clean seq -> clean chan -> talker <> [] -> Forall clean cs ->
+  Forall e2e_ascii (FrameProofs.sentences_from talker seq chan cnt fill k cs).
+Proof.
+  intros talker seq chan cnt fill cs. induction cs as [|c r IH]; intros k Ht Hs Hc Hne Hcs; [constructor|].
+  inversion Hcs; subst. cbn [FrameProofs.sentences_from]. constructor; [|apply IH; assumption].
+  unfold sentence, e2e_ascii.
+  destruct (body_facts talker seq chan c cnt k (fill_of cnt fill k) Ht Hs Hc ltac:(assumption) Hne) as (_ & Hb & _).
+  pose proof (xor_body_range talker seq chan c cnt k (fill_of cnt fill k) Ht Hs Hc ltac:(assumption) Hne) as Hx.
+  assert (Hr : 0 <= fs_xor_all (sent_body talker cnt k seq chan c (fill_of cnt fill k)) < 256) by lia.
+  pose proof (e2e_hex2_carrier _ Hr) as Hh. unfold e2e_hex2_carrier_ok in Hh. apply andb_true_iff in Hh.
+  constructor; [cbv beta; lia|]. apply Forall_app. split; [exact Hb|]. constructor; [cbv beta; lia|].
+  apply e2e_hexdigit_ascii. apply Hh.
+Qed.
+
+Theorem frame_ascii : forall (p talker chan : list Z) (fill : Z) ss,
+  valid_talker talker -> valid_channel chan -> armored p -> (1 <= length p)%nat ->
+  ais_to_nmea_0183 p talker chan fill = Ok ss -> Forall e2e_ascii ss.
+Proof.
+  intros p talker chan fill ss Ht Hc Hp Hlen He.
+  destruct (frame_closed_form p talker chan fill Ht Hc Hp Hlen) as (_ & _ & Hseq & Hcs & He').
+  rewrite He' in He. injection He as <-.
+  destruct (valid_talker_clean _ Ht) as (Htc & Htn & _). destruct (valid_channel_clean _ Hc) as (Hcc & _).
+  apply e2e_sentences_ascii; assumption.
+Qed.
